@@ -635,6 +635,13 @@ def _norm_index(i, n):
 def tensor_index(I, t: Tensor, key):
     if not isinstance(key, tuple):
         key = (key,)
+    if sum(1 for k in key if isinstance(k, (list, Tensor))) > 1:
+        if not all(isinstance(k, (list, Tensor)) for k in key) or len(key) != t.ndim:
+            raise Unsupported("mixed fancy / basic indexing on a fixed tensor")
+        lists = [list(k.data) if isinstance(k, Tensor) else list(k) for k in key]
+        if len({len(l) for l in lists}) != 1:
+            raise PyExc("IndexError", ("shape mismatch: indexing arrays could not be broadcast together",))
+        return Tensor((len(lists[0]),), [t.get([_norm_index(lists[ax][j], t.shape[ax]) for ax in range(t.ndim)]) for j in range(len(lists[0]))], t.dtype)
     # expand newaxis / slices / ints
     dims = []          # for each source axis: list of indices, or int
     out_shape = []
@@ -688,11 +695,37 @@ def tensor_index(I, t: Tensor, key):
     return Tensor(tuple(out_shape), data, t.dtype)
 
 
+def _mask_to_indices(k):
+    if isinstance(k, Tensor) and k.dtype == "bool":
+        if k.ndim != 1 or any(isinstance(b, Sym) for b in k.data):
+            raise Unsupported("symbolic / multi-dimensional boolean mask on a fixed tensor")
+        return [i for i, b in enumerate(k.data) if b]
+    return k
+
+
 def tensor_setitem(I, t: Tensor, key, value):
-    if isinstance(key, Tensor) and key.dtype == "bool" or (isinstance(key, tuple) and any(isinstance(k, Tensor) and k.dtype == "bool" for k in key)):
-        raise Unsupported("boolean mask assignment on fixed tensor")
+    if isinstance(key, tuple):
+        key = tuple(_mask_to_indices(k) for k in key)
+    else:
+        key = _mask_to_indices(key)
     if not isinstance(key, tuple):
         key = (key,)
+    # numpy pairs several index arrays element by element (it does not take their outer product)
+    fancy = [k for k in key if isinstance(k, (list, Tensor))]
+    if len(fancy) > 1:
+        if len(fancy) != len(key) or len(key) != t.ndim:
+            raise Unsupported("mixed fancy / basic indexing on a fixed tensor")
+        lists = [list(k.data) if isinstance(k, Tensor) else list(k) for k in key]
+        if len({len(l) for l in lists}) != 1:
+            raise PyExc("IndexError", ("shape mismatch: indexing arrays could not be broadcast together",))
+        tv = value if isinstance(value, Tensor) else (Tensor.fromlist(value) if isinstance(value, list) else Tensor((), [value]))
+        npts = len(lists[0])
+        if tv.size not in (1, npts):
+            raise PyExc("ValueError", ("could not broadcast input array",))
+        for j in range(npts):
+            idx = [_norm_index(lists[ax][j], t.shape[ax]) for ax in range(t.ndim)]
+            t.set(idx, tv.data[0] if tv.size == 1 else tv.data[j])
+        return
     sel = []
     for ax, k in enumerate(key):
         n = t.shape[ax]
